@@ -108,7 +108,8 @@ Print Assumptions container_event_delivered.
 
 Theorem no_mutation_raises :
   forall ops st, inv st -> hyps st ops = true ->
-    Forall (fun p : op * obs => ob_out (snd p) = Ok) (run st ops).
+    Forall (fun p : op * obs => ob_out (snd p) = Ok \/ (op_slot (fst p) = None /\ ob_out (snd p) = Raise ValueError))
+           (run st ops).
 Proof. exact run_all_ok. Qed.
 Print Assumptions no_mutation_raises.
 
@@ -236,6 +237,29 @@ Theorem old_value_unhooked_when_new_value_cannot_be_hooked :
 Proof. exact change_fails_single. Qed.
 Print Assumptions old_value_unhooked_when_new_value_cannot_be_hooked.
 
+(* The general case, several maintainers on the slot: those before the failing one have swapped the hooks below
+   the removed objects for those below the added ones, the failing one has only unhooked, those after it have not
+   run (the exception stops the notifier loop - the code's behaviour, stated exactly). *)
+Theorem failing_maintainer_exact_effect :
+  forall st o fo news removed added keep prevented strict M1 k c M2 y ys,
+    inv st ->
+    Permutation (st_heap st o fo) (keep ++ removed) -> Permutation news (keep ++ added) ->
+    fo <> TA ->
+    (forall kc, In kc (occ_all (st_traits st) (st_heap st) (st_regs st) o fo) ->
+       forall z, In z (st_heap st o fo) \/ In z news -> visits (st_traits st) (st_heap st) (snd kc) z o fo = false) ->
+    maint_on (st_hooks st) o fo = M1 ++ (k, c) :: M2 ->
+    (forall kc z, In kc M1 -> In z added -> walkable (st_traits st) (upd (st_heap st) o fo news) (snd kc) z = true) ->
+    added = y :: ys -> walkable (st_traits st) (upd (st_heap st) o fo news) c y = false ->
+    let h' := upd (st_heap st) o fo news in
+    let t := st_traits st in
+    ob_out (snd (change st o fo news removed added prevented strict)) = Raise ValueError
+    /\ st_heap (fst (change st o fo news removed added prevented strict)) = h'
+    /\ Permutation (st_hooks (fst (change st o fo news removed added prevented strict))
+                    ++ S_of t h' M1 removed ++ S_of t h' [(k, c)] removed)
+                   (st_hooks st ++ S_of t h' M1 added).
+Proof. exact change_fails_at. Qed.
+Print Assumptions failing_maintainer_exact_effect.
+
 (* The optional flag only matters for failure: it never changes which (object, trait) pairs an expression
    reaches, and an expression all of whose observers are optional can always be hooked. *)
 Theorem optional_flag_does_not_change_reachability :
@@ -247,6 +271,17 @@ Theorem optional_expressions_never_fail :
   forall t h g, all_optional g = true -> forall x, walkable t h g x = true.
 Proof. exact all_optional_walkable. Qed.
 Print Assumptions optional_expressions_never_fail.
+
+(* A registration that cannot be hooked is INSIDE the hypotheses of the history theorems: it raises ValueError,
+   nothing changes, the invariant and the law go on holding. *)
+Example failing_registration_inside_hyps :
+  let ops := [SetRef 0 1 [1]; Observe 0 0 (G [1] true true false [G [12] true true false []]); Probe 1;
+              AddTrait 1 12; Observe 0 0 (G [1] true true false [G [12] true true false []]); SetRef 1 12 [2]] in
+  hyps (init 3) ops = true
+  /\ map (fun p => (ob_out (snd p), length (ob_calls (snd p)))) (run (init 3) ops)
+     = [(Ok, 0); (Raise ValueError, 0); (Ok, 0); (Ok, 0); (Ok, 0); (Ok, 1)]
+  /\ law_hist 0%Z init_traits (fun _ _ => []) [] (run (init 3) ops) = [].
+Proof. vm_compute. repeat split; reflexivity. Qed.
 
 (* Non-vacuity of the two: object 1 has the non-optional trait 12, object 2 does not.  Registering on 2 fails
    atomically; re-assigning 0.f from 1 to 2 raises ValueError, is stored, and the detached object 1 is silent:
